@@ -185,7 +185,9 @@ def run(ctx, name, kind, **kw):
             t = ts[rd % len(ts)]
             dom = t.domain()
             oid = tuple(named[rd % 3].oid) if rd % 2 else (1, 3, 132, 0, 247)
-            curve = lib.mk_toy_curve(dom, name="transient_%d" % rd, oid=oid)
+            # names an application might choose (they end up in error messages: characters that mean something to str.format / % must stay text)
+            cname_t = ("transient_%d" % rd, "my{curve}%d" % rd, "100%% legit %d" % rd, "{0}", "}{", "%s%d", "curve {name!r:>10}", "")[rd % 8]
+            curve = lib.mk_toy_curve(dom, name=cname_t, oid=oid)
             n = dom.n
             d = rng.randrange(1, n)
             sk = ecdsa.SigningKey.from_secret_exponent(d, curve, hashlib.sha256)
@@ -197,6 +199,8 @@ def run(ctx, name, kind, **kw):
                 dg = bytes(rng.getrandbits(8) for _ in range(rng.choice((1, 2, 5))))
                 one(ctx, sk_use, curve, dom, d, k, dg, rng.random() < 0.8, "transient_curve", "%s|%d" % (how, n.bit_length()))
             check_pubkey(ctx, sk_use, curve, dom, d, "transient|%s" % how)
+            # and the refusal path: a digest longer than the order with truncation off is BadDigestError whatever the curve is called
+            one(ctx, sk_use, curve, dom, d, rng.randrange(1, n), bytes(rng.getrandbits(8) for _ in range(dom.nbytes() + 2)), False, "transient_curve", "%s|toolong" % how)
             if rd % 2:
                 # also a named curve's key in between, through the same entry points
                 c = named[rd % 3]
